@@ -221,6 +221,12 @@ theorem cstr_of_get {b : Bytes} : ∀ (w : Bytes) (off : Nat), NulFree w →
     rw [List.drop_eq_getElem_cons hlt, hbc]
     simp [hc0, ht]
 
+theorem view_cstr {buf : Bytes} {p : Nat} {s : Bytes} (h : View buf p s) : cstr buf p = s :=
+  cstr_of_get s p h.1 (fun j hj => view_get h j hj) (view_get_end h)
+
+theorem view_unique {buf : Bytes} {p : Nat} {a b : Bytes} (ha : View buf p a) (hb : View buf p b) :
+    a = b := by rw [← view_cstr ha, ← view_cstr hb]
+
 theorem set_of_get {l : Bytes} {i : Nat} {o : UInt8} (h : l[i]? = some o) : l.set i o = l := by
   have hlt : i < l.length := by
     rcases Nat.lt_or_ge i l.length with h' | h'
